@@ -104,16 +104,23 @@ def canonAttrs (attrs : List (Str × Str)) : List (Str × Str) :=
   (specialAttrs.filterMap fun a => (lookupAttr a attrs).map fun v => (a, v)) ++
   attrs.filter fun kv => !specialAttrs.contains kv.1
 
+/-- the namespace declarations the writer emits on an element, in its order: everything in scope
+that the parent does not declare, sorted by `_ns_sortkey`.  For a root (and for every element of a
+Capella file, where only the root declares namespaces) this is `sortNs` of its own declarations. -/
+def canonNs (parentKeys : List Str) (nsmap : List (Str × Str)) : List (Str × Str) :=
+  (sortNs nsmap).filter fun p => !parentKeys.contains p.1
+
 mutual
-def canonElem : Elem → Elem
+def canonElem (pns : List (Str × Str)) (isRoot : Bool) : Elem → Elem
   | .mk tag nsd attrs text tail kids =>
-    .mk tag (sortNs nsd) (canonAttrs attrs) text tail (canonKids kids)
-def canonKids : List Elem → List Elem
+    .mk tag (canonNs (if isRoot then [] else pns.map (·.1)) (scope pns nsd)) (canonAttrs attrs) text tail
+      (canonKids (scope pns nsd) kids)
+def canonKids (nsmap : List (Str × Str)) : List Elem → List Elem
   | [] => []
-  | k :: ks => canonElem k :: canonKids ks
+  | k :: ks => canonElem nsmap false k :: canonKids nsmap ks
 end
 
-def canonDoc (d : Doc) : Doc := ⟨d.pre, canonElem d.root, d.post⟩
+def canonDoc (d : Doc) : Doc := ⟨d.pre, canonElem [] true d.root, d.post⟩
 
 /-! ## The raw (prefixed) tree and the token sequence of a well-formed tree -/
 
@@ -121,8 +128,7 @@ def canonDoc (d : Doc) : Doc := ⟨d.pre, canonElem d.root, d.post⟩
 def rawAttrs (parentKeys : List Str) (nsmap : List (Str × Str))
     (attrs : List (Str × Str)) : List (Str × Str) :=
   (specialAttrs.filterMap fun a => (lookupAttr a attrs).map fun v => (unmap nsmap a, v))
-  ++ ((sortNs nsmap).filter fun p => !parentKeys.contains p.1).map
-      (fun p => ("xmlns:".toList ++ p.1, p.2))
+  ++ (canonNs parentKeys nsmap).map (fun p => ("xmlns:".toList ++ p.1, p.2))
   ++ ((attrs.filter fun kv => !specialAttrs.contains kv.1).map fun kv => (unmap nsmap kv.1, kv.2))
 
 mutual
